@@ -9,7 +9,11 @@
 EXTENDS Cuckoo, Json, IOUtils
 Rec == ndJsonDeserialize(IOEnv.TRACE)
 Unpack(st) == [tbl |-> [s \in SlotsC |-> st.tbl[s + 1]], n |-> st.n]
-HOf(st)    == [f \in FPs |-> st.h[f]]
+\* small models: h[f] for f in 1..FPMax; scenarios on larger parameters: hx = <<fingerprint, offset>> pairs of
+\* every fingerprint that can be in the table (the universe keys' fingerprints)
+HOf(st)    == IF Len(st.hx) = 0 THEN [f \in FPs |-> st.h[f]]
+              ELSE [f \in {st.hx[i][1] : i \in 1 .. Len(st.hx)} |->
+                       st.hx[CHOOSE i \in 1 .. Len(st.hx) : st.hx[i][1] = f][2]]
 Expand(p)  == [k \in 1 .. MaxKicks |-> p[((k - 1) % Len(p)) + 1]]
 Expected(e) ==
     LET pre == Unpack(e.pre)  H == HOf(e.pre) IN
